@@ -1035,7 +1035,7 @@ func ruleIOLayer(c *Ctx) {
 		"os.Open":     {"cmd.readFileOrStdin": "FILE argument", "util.OpenAndParse": "dictionary files"},
 		"os.Create":   {"cmd.getOutput": "-o file"},
 		"fmt.Print":   {"cmd.midiCmdPortIn.RunE": "midi port listing (not a data command)", "cmd.midiCmdPortOut.RunE": "midi port listing (not a data command)", "input/ast.": "generated parser trace (judged by DEBUGOUT)"},
-		"os.ReadFile": {}, "os.WriteFile": {}, "os.OpenFile": {},
+		"os.ReadFile": {}, "os.WriteFile": {}, "os.OpenFile": {}, "cobra.Out": {},
 	}
 	isAllowed := func(what, fn string) (string, bool) {
 		for pfx, why := range allowed[what] {
@@ -1063,6 +1063,9 @@ func ruleIOLayer(c *Ctx) {
 					what = n
 				case "fmt.Print", "fmt.Println", "fmt.Printf":
 					what = "fmt.Print"
+				case "github.com/spf13/cobra.Command.OutOrStdout", "github.com/spf13/cobra.Command.Print", "github.com/spf13/cobra.Command.Println", "github.com/spf13/cobra.Command.Printf":
+					// cobra's own stdout: bypasses -o just like os.Stdout does
+					what = "cobra.Out"
 				}
 			}
 			if what == "" {
@@ -1073,6 +1076,10 @@ func ruleIOLayer(c *Ctx) {
 			if u, ok := in.(*ssa.UnOp); ok && what == "os.Stderr" && onlyFeedsLoggerSetup(u) {
 				// wherever the logger is configured: stderr as the log destination is not a data path
 				c.ok(key, c.pos(in.Pos()), name, "allowed: destination of the logger (logx.Setup)")
+				return
+			}
+			if u, ok := in.(*ssa.UnOp); ok && what == "os.Stdin" && !onlyHandedOn(u) {
+				c.bad(key, c.pos(in.Pos()), name, "standard input is inspected (a method is called on os.Stdin) instead of simply being read: what a command accepts then depends on whether stdin is a pipe, a file or a terminal, so `crd x < FILE`, `cat FILE | crd x` and `crd x FILE` can differ")
 				return
 			}
 			if why, ok := isAllowed(what, name); ok {
@@ -1297,6 +1304,39 @@ func onlyFeedsLoggerSetup(v ssa.Value) bool {
 				return false
 			}
 		case *ssa.DebugRef:
+		default:
+			return false
+		}
+	}
+	return true
+}
+
+
+// onlyHandedOn: the loaded stream is only passed along as an argument (never the receiver of a call such as Stat).
+func onlyHandedOn(v ssa.Value) bool {
+	refs := v.Referrers()
+	if refs == nil {
+		return true
+	}
+	for _, r := range *refs {
+		switch x := r.(type) {
+		case *ssa.MakeInterface:
+			if !onlyHandedOn(x) {
+				return false
+			}
+		case *ssa.ChangeInterface:
+			if !onlyHandedOn(x) {
+				return false
+			}
+		case ssa.CallInstruction:
+			cc := x.Common()
+			if cc.IsInvoke() && cc.Value == v {
+				return false
+			}
+			if !cc.IsInvoke() && cc.Signature().Recv() != nil && len(cc.Args) > 0 && cc.Args[0] == v {
+				return false
+			}
+		case *ssa.DebugRef, *ssa.Store, *ssa.Phi, *ssa.Return:
 		default:
 			return false
 		}
